@@ -219,14 +219,16 @@ def step1 (w : W) (op impl : String) : W × String × Verdict :=
     let (s', cnt, msgs) := giveBlocks s blocks 20
     let w' := setNode w n s'
     let expected := " ".intercalate (secs.take resIdx) ++ s!" R{cnt} M" ++ ",".intercalate msgs ++ " " ++ digest s'
-    let (m, v) := finish w' impl expected (implDs.getD 0 "") (digest s') implRes (toString cnt)
-    -- C33: the follower must never hold a block that is not publisher-signed, and must ask for more
+    -- C33: the node must keep requesting the blocks above its (new) head
+    let implM := (secs.find? (·.startsWith "M")).getD "M"
+    let extra := if implM != "M" ++ ",".intercalate msgs then ["C33[requests]"] else []
+    let (m, v) := finish w' impl expected (implDs.getD 0 "") (digest s') implRes (toString cnt) extra
     (w', m, v)
   | ["announce", n, k] =>
     let s := getNode w n
     let expected := "Rok M" ++ ",".intercalate (announceBlocks s (natOf k) 20)
-    let (m, v) := finish w impl expected "" "" implRes "ok"
-    (w, m, if v matches .hold then .hold else .fail)
+    let (m, v) := finish w impl expected "" "" implRes "ok" (if expected == impl then [] else ["C33[requests]"])
+    (w, m, v)
   | ["getblocks", n, last, req] =>
     let s := getNode w n
     let bs := getBlocks s (natOf last) (natOf req) 5
@@ -234,6 +236,15 @@ def step1 (w : W) (op impl : String) : W × String × Verdict :=
     let expected := "Rok M" ++ msg ++ " H" ++ last
     let (m, v) := finish w impl expected "" "" implRes "ok"
     (w, m, if v matches .hold then .hold else .fail)
+  | ["rebuild", n, _] =>
+    -- rebuilding history / the address index from the stored chain and unspent set yields exactly the
+    -- incrementally maintained data (C07 "rebuild"), then the restart removes invalid pool entries
+    let s := getNode w n
+    let s' := restart s
+    let w' := setNode w n s'
+    let expected := "Rok " ++ digest s'
+    let (m, v) := finish w' impl expected (implDs.getD 0 "") (digest s') implRes "ok"
+    (w', m, v)
   | [inj, n, _] =>
     if inj == "injf" || inj == "inju" then
       let s := getNode w n
